@@ -22,18 +22,19 @@ import (
 	"github.com/apache/skywalking-banyandb/banyand/queue"
 	"github.com/apache/skywalking-banyandb/banyand/queue/pub"
 	"github.com/apache/skywalking-banyandb/banyand/queue/sub"
-	"github.com/apache/skywalking-banyandb/pkg/logger"
+	"github.com/apache/skywalking-banyandb/banyand/internal/verif/simnode"
 	"github.com/apache/skywalking-banyandb/pkg/verif/simcore"
 )
 
 func TestSim(t *testing.T) {
-	_ = logger.Init(logger.Logging{Env: "prod", Level: "fatal"})
+	simnode.InitLogging()
 	simcore.Main(t, "C17", scenarios)
 }
 
 var scenarios = []simcore.Scenario{
 	{Name: "transfer-lockstep", Weight: 3, Run: runLockstep},
 	{Name: "transfer-pipelined", Weight: 2, Run: runPipelined},
+	{Name: "cluster-measure", Weight: 1, Run: runClusterMeasure},
 }
 
 // ---- what is shipped
